@@ -131,7 +131,7 @@ func init() {
 			}
 		},
 		Bounds: func(tier string) string {
-			return fmt.Sprintf("(a) one decoded envelope: 0..2 type names (from {two known, one unknown}), 0..2 targets (registered or not), 0..2 senders, 1..%d messages whose TargetIndex/SenderIndex/TypeNameIndex are unconstrained symbolic int32; (b) Envelope.UnmarshalVT (+ PID/Message.UnmarshalVT, skip) on every byte string of length 0..%d (each byte symbolic), followed by streamReader.Receive on whatever it accepts; (c) a well-formed table prefix (1..2 type names, 2 targets, 0..1 sender, real MarshalVT) followed by one Messages field with 0..%d symbolic body bytes, decoded and fed to the reader", tierSel(tier, 2, 3), tierSel(tier, 5, 6), tierSel(tier, 6, 7))
+			return fmt.Sprintf("(a) one decoded envelope: 0..2 type names (from {two known, one unknown}), 0..2 targets (two recording actors, an unregistered id, or the node's own stream-writer actor towards another peer, which is registered under a well-known id), 0..2 senders, 1..%d messages whose TargetIndex/SenderIndex/TypeNameIndex are unconstrained symbolic int32; (b) Envelope.UnmarshalVT (+ PID/Message.UnmarshalVT, skip) on every byte string of length 0..%d (each byte symbolic), followed by streamReader.Receive on whatever it accepts; (c) a well-formed table prefix (1..2 type names, 2 targets, 0..1 sender, real MarshalVT) followed by one Messages field with 0..%d symbolic body bytes, decoded and fed to the reader", tierSel(tier, 2, 3), tierSel(tier, 5, 6), tierSel(tier, 6, 7))
 		},
 		Outside:     []string{"byte strings longer than the bounds (a delivery needs >= 6 bytes: whole-buffer deliveries are reached only in the thorough tier; the message-body harness reaches them in both)", "DRPC framing in front of the envelope bytes", "payload decoding: the Deserializer is a stub (fails for the unknown type name in (a), numbers its calls in (b)/(c))", "more than one envelope per stream"},
 		Assumptions: seqAssume("stream = stub returning the envelope then an error; engine = bare engine with two recording processes (actor harness helper)"),
@@ -220,7 +220,7 @@ func init() {
 
 	inbox := func(prop int, tier string, witnesses ...string) HarnessSpec {
 		return HarnessSpec{Name: "inbox-unit", Pkg: "actor", Func: "ZZ_Inbox", Preempt: 2,
-			Params: pm("prop", prop, "T", tierSel(tier, 2, 3), "M", 2, "S", 2), Witnesses: append([]string{"start-races-with-senders"}, witnesses...), Deadline: 40 * time.Minute, TrustRace: prop == 2 || prop == 1}
+			Params: pm("prop", prop, "T", tierSel(tier, 2, 3), "M", 2, "S", 3), Witnesses: append([]string{"start-races-with-senders"}, witnesses...), Deadline: 40 * time.Minute, TrustRace: prop == 2 || prop == 1}
 	}
 	l2 := func(prop int, t, m, crash int, witnesses ...string) HarnessSpec {
 		return HarnessSpec{Name: fmt.Sprintf("process-threads(prop %d)", prop), Pkg: "actor", Func: "ZZ_L2", Preempt: 2,
@@ -239,9 +239,9 @@ func init() {
 				{Name: "order-around-a-restart", Pkg: "actor", Func: "ZZ_L2", Preempt: 2, Params: pm("prop", 5, "T", 2, "M", 2, "crash", 1), Witnesses: []string{"restart"}, Deadline: 40 * time.Minute}}
 		},
 		Bounds: func(tier string) string {
-			return fmt.Sprintf("inbox unit: %d sender goroutines x 2 messages with symbolic payloads, initial ring size 1..2 (growth and wrap occur), Start before or racing with the senders, preemption bound 2; process unit: spawner + 2 senders on a real process/Inbox of size 1", tierSel(tier, 2, 3))
+			return fmt.Sprintf("inbox unit: %d sender goroutines x 2 messages with symbolic payloads, initial ring size 1..3 (growth and wrap occur; 3 is not a power of two), Start before or racing with the senders, preemption bound 2; process unit: spawner + 2 senders on a real process/Inbox of size 1", tierSel(tier, 2, 3))
 		},
-		Outside:     []string{"more goroutines / messages / preemptions", "ring-buffer arithmetic beyond these sizes (C14 covers it inductively)", "backlogs above messageBatchSize only sequentially: 4097 or 4100 messages queued before Start (or behind a started worker), initial ring size 1, 1024 or 4096, one schedule"},
+		Outside:     []string{"more goroutines / messages / preemptions", "ring-buffer arithmetic beyond these sizes (C14 covers it inductively)", "backlogs above messageBatchSize only sequentially: 4097 or 4100 messages queued before Start (or behind a started worker), initial ring size 1, 1000 or 4096, one schedule"},
 		Assumptions: thrAssume("inbox unit: real Inbox, RingBuffer and goscheduler with a recording Processer"),
 	})
 	reg(&PropSpec{
@@ -259,7 +259,7 @@ func init() {
 		ID:        "C03",
 		Harnesses: func(tier string) []HarnessSpec { return []HarnessSpec{inbox(3, tier), backlog} },
 		Bounds: func(tier string) string {
-			return fmt.Sprintf("%d sender goroutines x 2 messages, initial ring size 1..2, Start before or racing with the senders, preemption bound 2; at quiescence (every goroutine finished) all messages were handled, the ring is empty and the status is idle", tierSel(tier, 2, 3))
+			return fmt.Sprintf("%d sender goroutines x 2 messages, initial ring size 1..3, Start before or racing with the senders, preemption bound 2; at quiescence (every goroutine finished) all messages were handled, the ring is empty and the status is idle", tierSel(tier, 2, 3))
 		},
 		Outside:     []string{"more goroutines / messages / preemptions", "Stop racing with Send", "backlogs above messageBatchSize only sequentially (4097 / 4100 messages, one schedule)"},
 		Assumptions: thrAssume("inbox unit as for C01"),
